@@ -18,7 +18,8 @@ CLAIMS = {
              "mailbox, return Ok iff accepted, and a timed-out tell has enqueued nothing (rule T cut); every envelope embeds a strong reference (mpsc send "
              "precondition); the lifecycle monitor accepts Handled(id) only for the envelope just taken, exactly once, and leaves the loop only through a cause. "
              "Discharged by Verus for all inputs and all loop iterations.",
-        note=SEND_NOTE),
+        note=SEND_NOTE + " blocking_tell/blocking_ask WITH a timeout run through blocking_*_with_timeout_impl (std::thread + nested runtime), which is not under "
+             "contract: for them 'a send that reported Timeout is never handled' is checked by the always-on BOUNDED scenario blocking_timeout (labelled bounded, not counted as proved)."),
     "C02": dict(
         text="Frame clauses of every send relation: the only Enq/Rejected effect is on mailbox(self) - one queue for tell, ask, blocking and stop, no spawn per "
              "send, no try_send; stop is an in-band marker in that queue; the monitor requires the handler to run inline before the next poll. Order then follows from FIFO (A1).",
@@ -87,7 +88,8 @@ CLAIMS = {
         technique="contract-based deductive verification (Verus) of dispatch, no-timeout variants and deprecated aliases; bounded real-time scenarios on the real crate stand in for the two thread-based timeout implementations"),
     "C18": dict(
         text="All contracts of the feature-independent properties are re-discharged on the text extracted under each feature subset (quick: 6 subsets, thorough: all 16): the same relations and the same "
-             "monitor postcondition hold, i.e. feature-gated code only adds effects the relations do not constrain.",
+             "monitor postcondition hold, i.e. feature-gated code only adds effects the relations do not constrain. An obligation counts against C18 when it is discharged under one "
+             "feature subset and fails under another (a failure under every subset in which the obligation exists is the business of the property it states).",
         note="Shows contract preservation, not full trace equality; spans/log macros are dropped by R1/R3 (A9); cfg resolution by the extractor is assumed to mirror rustc's."),
     "C20": dict(
         text="Lifecycle: exactly one guard opened before and one record after each handled envelope, none otherwise (metrics monitor, all iterations); record_message adds exactly 1, saturating total, raises max "
